@@ -8,6 +8,9 @@ CLAIMED = {
  "C02": ("bounded model checking (Kani/CBMC+CaDiCaL) of BootInformation::load on a fully symbolic 64-byte region against a decision-table oracle",
          "For every content of a 64-byte region with any declared size 0..=64 the solver shows load() returns exactly the specified outcome (Ok / ShorterThanHeader / MissingPadding / NoEndTag), never panics, and reports start/end/size exactly; null pointer separately.",
          "dev-profile semantics; region <= 64 bytes; memory behind the pointer is as large as declared"),
+ "C07": ("bounded model checking (Kani/CBMC+CaDiCaL): differential check of every constructor's byte image against an independent spec offset/width table with symbolic arguments",
+         "All argument values of the 12 sized boot-information constructors, 10 sized header-tag constructors, both header constructors and the DST constructors (memory map <= 2 areas, SMBIOS/network/EFI map <= 9 bytes, EFI descriptors <= 1, framebuffer 3 types with <= 2 colours, information request <= 3, strings <= 5 bytes): type == ID == spec number, exact unpadded size, little-endian image, accessor read-back, byte view obtainable at every address satisfying the type's alignment.",
+         "dev-profile semantics; content lengths bounded as stated; ElfSectionsTag::new excluded (Kani ICE on its layout)"),
  "C10": ("bounded model checking (Kani/CBMC+CaDiCaL): header load on a symbolic 64-byte region vs. decision table; checksum law over three full-width symbolic words",
          "load(): all magic/checksum/length<=64 words, both architectures, outcome equals the specified precedence table, no panic. calc_checksum: congruence and absence of panic for all 2^32 x 2 x 2^32 inputs.",
          "dev-profile semantics; architecture word in {0,4}; region <= 64 bytes"),
